@@ -22,8 +22,13 @@ func c09Seeds(thorough bool) []explore.Seed {
 		g.Strategies = []gen.Strategy{gen.RU(0), gen.RU(1), gen.OnDelete()}
 		g.Histories = coreHistories
 	}
-	seeds := searchSeeds([]gridOpts{g})
-	// extra seeds: claims to create, orphans to adopt (pods and revisions), a pod to release
+	return append(searchSeeds([]gridOpts{g}), c09ExtraSeeds(true)...)
+}
+
+// c09ExtraSeeds: claims to create, orphans to adopt (pods and revisions) and,
+// if release is set, a pod to release.
+func c09ExtraSeeds(release bool) []explore.Seed {
+	var seeds []explore.Seed
 	w := world.New()
 	for _, pol := range []string{"OrderedReady", "Parallel"} {
 		sp := gen.Spec{Name: "web", Replicas: 2, Policy: pol, Strategy: gen.RU(0), Limit: 1, Template: 1, Claims: []string{"data"}}
@@ -32,7 +37,11 @@ func c09Seeds(thorough bool) []explore.Seed {
 		sp.Claims = nil
 		orphan := gen.Cell{Present: true, Phase: v1.PodRunning, Ready: true, Rev: 0, Owner: "none"}
 		nomatch := gen.Cell{Present: true, Phase: v1.PodRunning, Ready: true, Rev: 0, NoMatch: true}
-		for _, cells := range [][]gen.Cell{{orphan, gen.ReadyAt(0), gen.Absent}, {orphan, orphan, gen.Absent}, {gen.ReadyAt(0), nomatch, gen.Absent}, {orphan, nomatch, gen.ReadyAt(0)}} {
+		pops := [][]gen.Cell{{orphan, gen.ReadyAt(0), gen.Absent}, {orphan, orphan, gen.Absent}}
+		if release {
+			pops = append(pops, []gen.Cell{gen.ReadyAt(0), nomatch, gen.Absent}, []gen.Cell{orphan, nomatch, gen.ReadyAt(0)})
+		}
+		for _, cells := range pops {
 			sc := gen.Scenario{Spec: sp, Revs: []int{1}, Cur: 0, Cells: cells}
 			seeds = append(seeds, explore.Seed{Label: sc.String(), State: sc.Build(w)})
 		}
